@@ -79,8 +79,7 @@ def worker(wid, q, results, lock):
     if not os.path.isdir(repo):
         sh(["git", "-C", "/repo", "worktree", "add", "--detach", repo, "HEAD"])
         sh(["meson", "setup", "_build"], cwd=repo); sh(["ninja", "-C", "_build"], cwd=repo)
-    if not os.path.isdir(verif):
-        sh(["rsync", "-a", "--exclude", ".git", "--exclude", ".work", "--exclude", "replays", ROOT + "/", verif + "/"])
+    sh(["rsync", "-a", "--exclude", ".git", "--exclude", ".work", "--exclude", "replays", ROOT + "/", verif + "/"])   # refreshed at every start
     env = dict(os.environ, VERIF_REPO=repo, VERIF_SEED="1")
     while True:
         try: m = q.get_nowait()
